@@ -45,3 +45,94 @@ func After(d Duration) *vrt.Chan[Time] {
 func Unix(sec, nsec int64) Time                { return time.Unix(sec, nsec) }
 func Parse(l, v string) (Time, error)          { return time.Parse(l, v) }
 func ParseDuration(s string) (Duration, error) { return time.ParseDuration(s) }
+
+// Ticker replaces time.Ticker: C receives the virtual time every d (a tick is
+// dropped when the previous one was not taken, as in package time).
+type Ticker struct {
+	C       *vrt.Chan[Time]
+	d       Duration
+	stopped bool
+	gen     int
+}
+
+func NewTicker(d Duration) *Ticker {
+	if d <= 0 {
+		panic("non-positive interval for NewTicker")
+	}
+	t := &Ticker{C: vrt.MakeChan[Time](1), d: d}
+	t.arm()
+	return t
+}
+
+func (t *Ticker) arm() {
+	gen := t.gen
+	vrt.AfterFunc(t.d, func() {
+		if t.stopped || gen != t.gen {
+			return
+		}
+		t.C.Offer(Epoch.Add(vrt.NowNoJump()))
+		t.arm()
+	})
+}
+
+func (t *Ticker) Stop() { t.stopped = true }
+
+func (t *Ticker) Reset(d Duration) {
+	t.d = d
+	t.gen++
+	t.stopped = false
+	t.arm()
+}
+
+func Tick(d Duration) *vrt.Chan[Time] { return NewTicker(d).C }
+
+// Timer replaces time.Timer.
+type Timer struct {
+	C     *vrt.Chan[Time]
+	fired bool
+	gen   int
+	f     func()
+}
+
+func NewTimer(d Duration) *Timer {
+	t := &Timer{C: vrt.MakeChan[Time](1)}
+	t.start(d)
+	return t
+}
+
+// AfterFunc runs f in its own goroutine after d.
+func AfterFunc(d Duration, f func()) *Timer {
+	t := &Timer{f: f}
+	t.start(d)
+	return t
+}
+
+func (t *Timer) start(d Duration) {
+	gen := t.gen
+	t.fired = false
+	vrt.AfterFunc(d, func() {
+		if gen != t.gen {
+			return
+		}
+		t.fired = true
+		if t.f != nil {
+			vrt.SpawnFromTimer("afterfunc", t.f)
+			return
+		}
+		t.C.Offer(Epoch.Add(vrt.NowNoJump()))
+	})
+}
+
+// Stop prevents the timer from firing; it reports whether it was still pending.
+func (t *Timer) Stop() bool {
+	pending := !t.fired
+	t.gen++
+	return pending
+}
+
+func (t *Timer) Reset(d Duration) bool {
+	pending := !t.fired
+	t.gen++
+	t.start(d)
+	return pending
+}
